@@ -2,6 +2,7 @@ mod engine;
 mod isa;
 mod props;
 mod refver;
+mod soup;
 
 use engine::*;
 use serde_json::{json, Value};
@@ -212,6 +213,7 @@ fn check(id: &str, args: &[String]) -> i32 {
             .args(["--worker", &w.to_string(), "--nworkers", &nworkers.to_string(), "--out"])
             .arg(&out)
             .stdout(Stdio::null())
+            .stderr(std::fs::File::create(scratch.join(format!("{tag}.w{w}.stderr"))).map(Stdio::from).unwrap_or_else(|_| Stdio::null()))
             .spawn()
             .expect("spawn worker");
         children.push((w, child, out));
@@ -220,9 +222,14 @@ fn check(id: &str, args: &[String]) -> i32 {
         let st = child.wait();
         match (st, read_json(&out)) {
             (Ok(s), Some(v)) if s.success() => stats.merge_json(&v),
-            (st, _) => hard_inconclusive.push(format!("worker {w} died: {st:?}")),
+            (st, _) => {
+                let err = std::fs::read_to_string(scratch.join(format!("{tag}.w{w}.stderr"))).unwrap_or_default();
+                let tail: String = err.lines().rev().take(5).collect::<Vec<_>>().join(" | ");
+                hard_inconclusive.push(format!("worker {w} died: {st:?} stderr: {tail}"))
+            }
         }
         let _ = std::fs::remove_file(&out);
+        let _ = std::fs::remove_file(scratch.join(format!("{tag}.w{w}.stderr")));
     }
 
     // 3. known findings hit by the search
@@ -244,7 +251,8 @@ fn check(id: &str, args: &[String]) -> i32 {
     for v in &stats.violations {
         let sig = v["signature"].as_str().unwrap_or("");
         let rp = v["replay"].as_str().unwrap_or("");
-        if seen.insert((sig.to_string(), rp.to_string())) {
+        // one line per distinct signature (workers usually find the same thing several times)
+        if seen.insert(sig.to_string()) {
             println!("VIOLATION property={} replay={}", def.info.id, rp);
             println!("  signature: {sig}");
             for l in v["detail"].as_str().unwrap_or("").lines().take(12) {
